@@ -539,9 +539,43 @@ pub fn layout_seeds(tier: &str) -> Vec<(Seed, PlanOpts)> {
             w.u16(3).u16(0).u16(0).u16(0).u16(0);
             w.done()
         };
+        // a context rule whose first record deletes the matched glyph (MultipleSubst with an empty sequence) and whose
+        // second record addresses the same sequence index: the bookkeeping of the matched length after a deletion
+        let deleting_context = || {
+            let mut sl = W::new();
+            sl.u16(2).tag(otmodel::tag(b"DFLT")).u16(14).tag(otmodel::tag(b"latn")).u16(14);
+            sl.u16(4).u16(0).u16(0).u16(0xFFFF).u16(1).u16(0);
+            let sl = sl.done();
+            let mut fl = W::new();
+            fl.u16(1).tag(otmodel::tag(b"calt")).u16(8).u16(0).u16(1).u16(0);
+            let fl = fl.done();
+            // lookup 0: Context format 3, 1 glyph (coverage [1]), 2 records (0 -> lookup 1), (0 -> lookup 2)
+            let mut l0 = W::new();
+            l0.u16(5).u16(0).u16(1).u16(8);
+            l0.u16(3).u16(1).u16(2).u16(14).u16(0).u16(1).u16(0).u16(2).u16(1).u16(1).u16(1);
+            let l0 = l0.done();
+            // lookup 1: MultipleSubst format 1, coverage [1], one Sequence with 0 glyphs
+            let mut l1 = W::new();
+            l1.u16(2).u16(0).u16(1).u16(8);
+            l1.u16(1).u16(8).u16(1).u16(14).u16(1).u16(1).u16(1).u16(0);
+            let l1 = l1.done();
+            // lookup 2: SingleSubst format 1, coverage [1, 2], delta +2
+            let mut l2 = W::new();
+            l2.u16(1).u16(0).u16(1).u16(8);
+            l2.u16(1).u16(6).i16(2).u16(1).u16(2).u16(1).u16(2);
+            let l2 = l2.done();
+            let mut ll = W::new();
+            ll.u16(3).u16(8).u16((8 + l0.len()) as u16).u16((8 + l0.len() + l1.len()) as u16).bytes(&l0).bytes(&l1).bytes(&l2);
+            let ll = ll.done();
+            let mut g = W::new();
+            g.u16(1).u16(0).u16(10).u16((10 + sl.len()) as u16).u16((10 + sl.len() + fl.len()) as u16);
+            g.bytes(&sl).bytes(&fl).bytes(&ll);
+            g.done()
+        };
         let cmap = [(0x41u32, 1u16), (0x42, 2), (0x66, 3), (0x69, 4)];
         let opts = PlanOpts { truncations: false, structure: false, layout_only: true, ..PlanOpts::full() };
         for (name, tables) in [
+            ("context-3-first-record-deletes-the-glyph-second-addresses-it", vec![(tag::GSUB, deleting_context())]),
             ("malformed-chain-context-3-without-input-gsub+gpos", vec![(tag::GSUB, table(b"calt", 6, chain3_empty())), (tag::GPOS, table(b"kern", 8, chain3_empty()))]),
             ("malformed-context-3-without-input-gsub+gpos", vec![(tag::GSUB, table(b"calt", 5, ctx3_empty())), (tag::GPOS, table(b"kern", 7, ctx3_empty()))]),
             ("inert-chain-context-3-gsub+gpos", vec![(tag::GSUB, table(b"calt", 6, chain3())), (tag::GPOS, table(b"kern", 8, chain3()))]),
@@ -550,6 +584,11 @@ pub fn layout_seeds(tier: &str) -> Vec<(Seed, PlanOpts)> {
             let bytes = otmodel::tables::minimal_font(6, &cmap, &tables);
             out.push((Seed { name: format!("synthetic/{}", name), bytes, wrap: Wrap::Raw }, opts.clone()));
         }
+    }
+    // GSUB 1.1 FeatureVariations behind an fvar (shaped with and without a tuple)
+    {
+        let opts = PlanOpts { truncations: false, structure: false, layout_only: true, ..PlanOpts::full() };
+        out.push((Seed { name: "synthetic/gsub-feature-variations+fvar".into(), bytes: crate::c03::synthetic_variable_gsub_font(), wrap: Wrap::Raw }, opts));
     }
     // synthetic kern / layout seeds
     for (name, bytes) in crate::synth::seeds() {
@@ -630,14 +669,24 @@ pub fn shape_battery(data: &[u8]) -> crate::battery::Report {
         let shaper_tag = match &t.to_be_bytes() { b"dev2" => tag::DEVA, b"mym2" => tag::MYMR, _ => t };
         cfgs = vec![(0u8, shaper_tag, None, true), (0, t, None, false)];
     }
+    // a variable font is also shaped at a variation tuple (feature variations: condition sets and feature table
+    // substitutions are only read then): the normalised tuple of every axis at its maximum
+    let owned_tuple = otmodel::sfnt::parse(data).and_then(|f| f.table(tag::FVAR)).and_then(|fv| {
+        let fvar = ReadScope::new(fv).read::<allsorts::tables::variable_fonts::fvar::FvarTable<'_>>().ok()?;
+        let user: Vec<allsorts::tables::Fixed> = fvar.axes().map(|a| a.max_value).collect();
+        guard(|| fvar.normalize(user.iter().copied(), None)).ok()?.ok()
+    });
+    let tuple_modes: &[bool] = if owned_tuple.is_some() { &[false, true] } else { &[false] };
     for text in &texts {
         for &(fk, script, lang, kerning) in &cfgs {
+          for &with_tuple in tuple_modes {
             rep.entries_run += 1;
             crate::isolate::set_entry("Font::shape(corrupt-layout)");
             let r = guard(|| {
                 let glyphs = font.map_glyphs(text, script, MatchingPresentation::NotRequired);
                 let input: Vec<char> = glyphs.iter().flat_map(|g| g.unicodes.iter().copied()).collect();
-                let (infos, ok) = match font.shape(glyphs, script, lang, &features(fk), None, kerning) {
+                let tuple = if with_tuple { owned_tuple.as_ref().map(|t| t.as_tuple()) } else { None };
+                let (infos, ok) = match font.shape(glyphs, script, lang, &features(fk), tuple, kerning) {
                     Ok(i) => (i, true),
                     Err((_, i)) => (i, false),
                 };
@@ -664,6 +713,7 @@ pub fn shape_battery(data: &[u8]) -> crate::battery::Report {
                     }
                 }
             }
+          }
         }
     }
     let _ = n;
